@@ -14,6 +14,7 @@ import (
 
 func cfgFor(h *vh.H, profile string) j5sgen.Config {
 	c := j5sgen.DefaultConfig()
+	c.ListMethods = true
 	if h.Tier == "thorough" {
 		c.MaxElems, c.MaxProps, c.MaxDepth, c.MaxFiles = 7, 8, 4, 4
 	}
